@@ -3,6 +3,7 @@ import SSEPyVerif.Driver.CryptoD
 import SSEPyVerif.Driver.PersistD
 import SSEPyVerif.Driver.ServerD
 import SSEPyVerif.Driver.ClientD
+import SSEPyVerif.Driver.ManagerD
 
 open SSEPy SSEPy.Driver
 
@@ -11,6 +12,7 @@ structure DState where
   parr : Option PArray.PArr := none
   pdict : Option PDict.PDict := none
   srv : ServerIR.SrvD := {}
+  mgr : MgrD := {}
 
 def dispatch (st : DState) (line : String) : DState × String :=
   match (line.trimAscii.toString.splitOn " ") with
@@ -24,6 +26,7 @@ def dispatch (st : DState) (line : String) : DState × String :=
   | "lr" :: rest => (st, lrReq st.tables rest)
   | "pdict" :: rest => let (p, r) := pdictReq st.pdict rest; ({ st with pdict := p }, r)
   | "cli" :: rest => (st, cliReq rest)
+  | "mgr" :: rest => let (p, r) := mgrReq st.mgr rest; ({ st with mgr := p }, r)
   | "srv" :: rest => let (p, r) := srvReq st.srv rest; ({ st with srv := p }, r)
   | "parr" :: rest => let (p, r) := parrReq st.parr rest; ({ st with parr := p }, r)
   | _ => (st, Proto.bad)
